@@ -27,6 +27,9 @@ T == Traces[tid]
 
 Mark(name) == PrintT(<<"FAIL", ToJson([tid |-> tid, clause |-> name])>>)
 Chk(name, cond) == cond \/ (Mark(name) /\ FALSE)
+\* advisory: the recorded value differs from the specification's exact model of the arithmetic (minimum, fraction,
+\* floor, smallest admissible correction) in a way the properties do not forbid; counted as drift, never a violation
+Adv(name, cond) == cond \/ PrintT(<<"ADVISORY", ToJson([tid |-> tid, clause |-> name])>>)
 
 \* rows ordered by (score, row), as ConformalSplit.SortCum orders them
 TraceSorted(rk) ==
@@ -62,25 +65,39 @@ PostOK == TLCGet(1) = TRUE
 (* C14: the grid *)
 GridOK ==
   T.kind = "grid" =>
-    /\ Chk("minimum_in_candidates:p=" \o ToString(T.p), T.min \in CeilCandidates(T.p))
+    /\ Adv("minimum_in_candidates:p=" \o ToString(T.p), T.min \in CeilCandidates(T.p))
     /\ \A k \in DOMAIN T.f100 :
          LET n == T.n0 + k - 1 IN
          n >= MinExact(T.p) =>
-           Chk("fraction_in_candidates:p=" \o ToString(T.p) \o ",n=" \o ToString(n) \o ",f100=" \o ToString(T.f100[k]),
+           Adv("fraction_in_candidates:p=" \o ToString(T.p) \o ",n=" \o ToString(n) \o ",f100=" \o ToString(T.f100[k]),
                T.f100[k] \in Round2Candidates(T.p, n))
+
+\* C14 on the whole grid, from the fraction the real function returned: with the modelled floor step (and its float
+\* tie) the split leaves at least one training unit and enough calibration units for the quantile level
+GridSound ==
+  T.kind = "grid" =>
+    \A k \in DOMAIN T.f100 :
+      LET n == T.n0 + k - 1
+          prod == n * T.f100[k]
+          trains == {Max2(1, prod \div 100)} \cup (IF prod % 100 = 0 THEN {Max2(1, (prod \div 100) - 1)} ELSE {})
+      IN  n >= T.min =>
+            \A tr \in trains :
+              LET cal == n - tr IN
+              /\ Chk("grid_cal_at_least_one:p=" \o ToString(T.p) \o ",n=" \o ToString(n), cal >= 1)
+              /\ Chk("grid_quantile_level_below_one:p=" \o ToString(T.p) \o ",n=" \o ToString(n), T.p * (cal + 1) < 1000 * cal)
 
 (* C14: the estimators whose minimum / fraction does not depend on the level: every value observed over the grid *)
 FixedOK ==
   T.kind = "fixed" =>
-    /\ \A k \in DOMAIN T.mins : Chk("fixed_minimum:" \o T.est \o "=" \o ToString(T.mins[k]), T.mins[k] \in MinCandidates(T.est, 500))
-    /\ \A k \in DOMAIN T.f100s : Chk("fixed_fraction:" \o T.est \o "=" \o ToString(T.f100s[k]), T.f100s[k] \in FracCandidates(T.est, 500, 100))
+    /\ \A k \in DOMAIN T.mins : Adv("fixed_minimum:" \o T.est \o "=" \o ToString(T.mins[k]), T.mins[k] \in MinCandidates(T.est, 500))
+    /\ \A k \in DOMAIN T.f100s : Adv("fixed_fraction:" \o T.est \o "=" \o ToString(T.f100s[k]), T.f100s[k] \in FracCandidates(T.est, 500, 100))
 
 (* C14: real runs of the gate and the split *)
 IsRun == T.kind = "run"
 RunMinsOK ==
   IsRun => /\ Chk("one_minimum_per_level", Len(T.mins) = Len(T.alphas))
            /\ \A i \in DOMAIN T.mins :
-                Chk("minimum_in_candidates:p=" \o ToString(T.alphas[i]), T.mins[i] \in MinCandidates(T.est, T.alphas[i]))
+                Adv("minimum_in_candidates:p=" \o ToString(T.alphas[i]), T.mins[i] \in MinCandidates(T.est, T.alphas[i]))
 RunOutcomeOK ==
   (IsRun /\ Len(T.mins) = Len(T.alphas)) =>
     LET want == GateOutcome(NeedLoop(T.mins, Len(T.mins))) IN
@@ -90,9 +107,19 @@ RunSplitsOK ==
   (IsRun /\ T.outcome = "done" /\ Conformal) =>
     /\ Chk("one_split_per_level", Len(T.splits) = Len(T.alphas))
     /\ \A i \in DOMAIN T.splits :
-         Chk("split_admissible:p=" \o ToString(T.alphas[i]) \o ",n=" \o ToString(T.n) \o ",f100=" \o ToString(T.splits[i].f100)
+         Adv("split_admissible:p=" \o ToString(T.alphas[i]) \o ",n=" \o ToString(T.n) \o ",f100=" \o ToString(T.splits[i].f100)
                \o ",train=" \o ToString(T.splits[i].train) \o ",cal=" \o ToString(T.splits[i].cal),
              SplitAdmissible(T.alphas[i], T.splits[i]))
+\* C14's clauses on the split the code actually made, whatever arithmetic produced it
+RunSplitsSound ==
+  (IsRun /\ T.outcome = "done" /\ Conformal) =>
+    \A i \in DOMAIN T.splits :
+      LET sp == T.splits[i] IN
+      /\ Chk("train_at_least_one", sp.train >= 1)
+      /\ Chk("cal_at_least_one", sp.cal >= 1)
+      /\ Chk("train_plus_cal_is_n", sp.train + sp.cal = T.n)
+      \* the nonparametric correction needs its quantile level alpha (1 + 1 / cal) below one
+      /\ (T.est = "nonparametric" => Chk("quantile_level_below_one", T.alphas[i] * (sp.cal + 1) < 1000 * sp.cal))
 WholeRun == IsRun /\ Len(T.mins) = Len(T.alphas) /\ (T.outcome = "done" /\ Conformal => Len(T.splits) = Len(T.alphas))
 TMinimumIsCeil       == WholeRun => Chk("minimum_is_ceil", MinimumIsCeil)
 TGateExact           == WholeRun => Chk("gate_exact", GateExact)
@@ -110,8 +137,10 @@ RankOK ==
     \A k \in DOMAIN T.ks :
       LET n == T.n0 + k - 1 IN
       QLevelBelowOne(T.p, n) =>
-        Chk("rank_in_candidates:p=" \o ToString(T.p) \o ",ncal=" \o ToString(n) \o ",k=" \o ToString(T.ks[k]),
-            T.ks[k] \in RankCandidates(T.p, n))
+        \* the rank the code selected covers an exchangeable outstanding unit with probability k / (n_cal + 1) >= alpha
+        /\ Chk("rank_gives_coverage:p=" \o ToString(T.p) \o ",ncal=" \o ToString(n), T.ks[k] * 1000 >= T.p * (n + 1))
+        /\ Adv("rank_in_candidates:p=" \o ToString(T.p) \o ",ncal=" \o ToString(n) \o ",k=" \o ToString(T.ks[k]),
+               T.ks[k] \in RankCandidates(T.p, n))
 
 (* C04: real calibration sets *)
 IsCorr == T.kind = "corr"
@@ -121,9 +150,9 @@ CorrHeldOut ==
   IsCorr => /\ Chk("two_bound_fits", Len(T.nfit) = 2 /\ T.nfit[1] = T.nfit[2])
             /\ Chk("at_least_one_training_unit", T.nfit[1] >= 1)
             /\ Chk("calibration_units_held_out", T.nfit[1] + Len(T.rk) = T.n)
-CorrIsScore == IsCorr => Chk("population_correction_is_a_score", T.popRk \in {T.rk[i] : i \in DOMAIN T.rk})
+CorrIsScore == IsCorr => Adv("population_correction_is_a_score", T.popRk \in {T.rk[i] : i \in DOMAIN T.rk})
 TWeightedCoverage   == (IsCorr /\ T.popRk >= 1) => Chk("weighted_coverage", WeightedCoverage)
-TSmallestCorrection == (IsCorr /\ T.popRk >= 1) => Chk("smallest_correction", SmallestCorrection)
+TSmallestCorrection == (IsCorr /\ T.popRk >= 1) => Adv("smallest_correction", SmallestCorrection)
 \* scaled values (scale T.S): k-th smallest scaled score through the module's sort of the ranks
 ScaledSorted(k) == T.sS[st.srt[k]]
 ScaledUnweightedTimesDen ==
